@@ -138,6 +138,42 @@ def sym_res_writer(vc, aspects=('transparent', 'persist', 'lookahead')):
     paths = vc.explore(fk, thunk, min_paths=2)
     expect_no_raise_or_same(vc, fk, paths)
 
+    # a row the encoder cannot express (bytes, an object of some class: TypeError / ValueError from json) or any other failure while
+    # the line is produced: the step FAILS there -- the row is not handed on as if it had been persisted (C05), and the file is not
+    # carried on to its final name (C08)
+    from pyvc.symex import PyExc
+    from pyvc import lib
+    for cls in ('TypeError', 'ValueError', 'OverflowError'):
+        def thunk_enc(it, cls=cls):
+            func, evs0, file = open_stream(it, 'path')
+            res_writer = func.env.lookup('res_writer')
+            rows = row_stream(it, 'rows')
+            boom = lib.ExcV(cls, ('Object of type bytes is not JSON serializable',))
+            from pyvc.api import Opaque
+            enc = Opaque('ejson', 'failing_encoder')
+
+            def dumps(it_, o, a, k):
+                raise PyExc(boom)
+            enc.attrs['call:dumps'] = dumps
+            it.module('dataflows.processors.stream').attrs['ejson'] = enc
+            func.env.find('res_writer')           # (closure already built: the module global is looked up at call time)
+            it.loops['res_writer#L0'] = LoopSpec(
+                at_start=lambda it, env, row: row,
+                at_end=lambda it, env, cap, events: check(it, 'a-row-that-cannot-be-encoded-is-not-handed-on[%s]' % cls, False))
+            try:
+                it.run_generator(it.call(res_writer, [rows]))
+            except PyExc as pe:
+                check(it, 'the-encoding-error-gets-out-as-raised[%s]' % cls, pe.exc is boom)
+                check(it, 'nothing-yielded-for-that-row[%s]' % cls, not yields_of(it.path.events))
+                cover(it, 'encoding-failure-reachable[%s]' % cls)
+                it.path.info['upstream_raise'] = True
+                raise
+        paths = vc.explore(fk, thunk_enc, min_paths=2)
+        for p_ in paths or []:
+            if p_.end == 'raise':
+                p_.info['upstream_raise'] = True
+        expect_no_raise_or_same(vc, fk, paths)
+
 
 def sym_stream_func(vc):
     """stream.func(package) with a path:
